@@ -243,38 +243,42 @@ theorem big_startHeap (E : Env U π) (hk : E.kway = true) {c : Call U π} {s s' 
 
 /-- every call keeps the no-duplicate invariant, only adds entries to the `succ` tables, and `query`
     returns the entry `succ[S][program]` of the new state -/
-theorem big_nodup (E : Env U π) (hk : E.kway = true) {c : Call U π} {s s' : St U π} {r : Res π}
-    (hb : Big E c s s' r) : NInv E s → NPre c s → NInv E s' ∧ Stable s s' ∧ NPost c s' r := by
+theorem big_nodup (E : Env U π) (H : GHyp E) {c : Call U π} {s s' : St U π} {r : Res π}
+    (hb : Big E c s s' r) : SInv E s → SPre E c → NInv E s → NPre c s → NInv E s' ∧ Stable s s' ∧ NPost c s' r := by
+  have hk := H.kway
   induction hb with
-  | query_direct h hb ih => intro hi _; exact ih hi trivial
+  | query_direct h hb ih => intro hs _ hi _; exact ih hs trivial hi trivial
   | query_init h h0 hb ih0 ih =>
-    intro hi _
-    obtain ⟨a1, a2, _⟩ := ih0 hi trivial
-    obtain ⟨b1, b2, b3⟩ := ih a1 trivial
+    intro hs _ hi _
+    obtain ⟨a1, a2, _⟩ := ih0 hs trivial hi trivial
+    obtain ⟨b1, b2, b3⟩ := ih (big_sound E H h0 hs trivial).1 trivial a1 trivial
     exact ⟨b1, a2.trans b2, b3⟩
   | lop_hit h =>
-    intro hi _
+    intro _ _ hi _
     exact ⟨hi, Stable.refl _, by intro q hq; cases hq; exact h⟩
-  | lop_miss h hb ih => intro hi _; exact ih hi h
-  | pop_empty h => intro hi _; exact ⟨hi, Stable.refl _, by intro q hq; cases hq⟩
+  | lop_miss h hb ih => intro hs _ hi _; exact ih hs trivial hi h
+  | pop_empty h => intro _ _ hi _; exact ⟨hi, Stable.refl _, by intro q hq; cases hq⟩
   | @pop_deleted s s1 s' nt key e h' x r h hd ha hb iha ihb =>
-    intro hi hpre
+    intro hs _ hi hpre
+    have hs1 : SInv E (s.setHeap nt h') := hs.setHeap_sub _ _ (mem_of_pop _ _ _ _ h).2
     have h1 : NInv E (s.setHeap nt h') := hi.popDrop nt e h' h
-    obtain ⟨a1, a2, _⟩ := iha h1 trivial
+    obtain ⟨a1, a2, _⟩ := iha hs1 trivial h1 trivial
     have hst0 : Stable s (s.setHeap nt h') := Stable.refl _
     have hre : NoReent E := by
       rcases hi.del_ok with hd0 | hre
       · rw [hd0] at hd; simp at hd
       · exact hre
     have hpre1 : AList.lookup key (s1.succOf nt) = none := by
-      rw [hre _ _ _ _ _ ha]
+      rw [hre _ _ _ _ _ hs1 ha]
       exact hpre
-    obtain ⟨b1, b2, b3⟩ := ihb a1 hpre1
+    obtain ⟨b1, b2, b3⟩ := ihb (big_sound E H ha hs1 trivial).1 trivial a1 hpre1
     exact ⟨b1, (hst0.trans a2).trans b2, b3⟩
   | @pop_take s s' nt key e h' x h hd ha iha =>
-    intro hi hpre
+    intro hs _ hi hpre
+    obtain ⟨hm, hsub⟩ := mem_of_pop _ _ _ _ h
+    have hs1 := ((hs.setHeap_sub nt h' hsub).setSucc nt key e.2 (hs.heap_seen _ _ hm)).setPred nt e.2 key
     obtain ⟨h1, hst⟩ := hi.popTake nt key e h' h hpre
-    obtain ⟨a1, a2, _⟩ := iha h1 trivial
+    obtain ⟨a1, a2, _⟩ := iha hs1 trivial h1 trivial
     refine ⟨a1, hst.trans a2, ?_⟩
     intro q hq
     cases hq
@@ -283,41 +287,72 @@ theorem big_nodup (E : Env U π) (hk : E.kway = true) {c : Call U π} {s s' : St
     rw [popTake_succOf]
     simp only [if_true]
     exact AList.lookup_insert_self _ _ _
-  | succ_leaf => intro hi _; exact ⟨hi, Stable.refl _, trivial⟩
+  | succ_leaf => intro _ _ hi _; exact ⟨hi, Stable.refl _, trivial⟩
   | succ_fun hk' hb ih =>
-    intro hi _
-    obtain ⟨a1, a2, _⟩ := ih hi trivial
+    intro hs _ hi _
+    obtain ⟨a1, a2, _⟩ := ih hs (hs.keys_ok _ _ _ _ hk') hi trivial
     exact ⟨a1, a2, trivial⟩
-  | loop_done => intro hi _; exact ⟨hi, Stable.refl _, trivial⟩
+  | loop_done => intro _ _ hi _; exact ⟨hi, Stable.refl _, trivial⟩
   | @loop_step s s1 s3 s' F args nt v i ai si r x hai hsi hq hp hb ihq ihb =>
-    intro hi _
-    obtain ⟨a1, a2, _⟩ := ihq hi trivial
+    intro hs hpre hi _
+    have hpre' : KeyOK E nt F args v := hpre
+    obtain ⟨hs1, hpost⟩ := big_sound E H hq hs trivial
+    have hs3 : SInv E s3 := by
+      apply hs1.pushStep H F args nt v i r _ s3 hp
+      intro q hq'
+      exact ⟨hpre'.1, derList_set E args v i q si hpre'.2 hsi (hpost q hq')⟩
+    obtain ⟨a1, a2, _⟩ := ihq hs trivial hi trivial
     obtain ⟨b1, b2⟩ := a1.pushStep hk F args nt v i r hp
-    obtain ⟨c1, c2, _⟩ := ihb b1 trivial
+    obtain ⟨c1, c2, _⟩ := ihb hs3 hpre' b1 trivial
     exact ⟨c1, (a2.trans b2).trans c2, trivial⟩
-  | init_skip h => intro hi _; exact ⟨hi, Stable.refl _, trivial⟩
+  | init_skip h => intro _ _ hi _; exact ⟨hi, Stable.refl _, trivial⟩
   | @init_run s s1 s3 s' nt rs b r h hrs hr hp hq ihr ihq =>
-    intro hi _
+    intro hs _ hi _
+    have hs0 : SInv E { s with initS := s.initS ++ [nt] } :=
+      ⟨hs.cache_ok, hs.heap_prio, hs.heap_seen, hs.seen_der, hs.succ_seen, hs.keys_ok, hs.maxNT_ok, hs.maxRule_ok,
+        hs.start_ok⟩
+    have hrows : ∀ x ∈ rs, altsOf E nt x.1 = x.2 := by
+      intro x hx
+      unfold altsOf
+      rw [hrs]
+      simp only
+      rw [AList.lookup_of_mem_nodup (H.rows nt rs hrs) (show (x.1, x.2) ∈ rs from hx)]
+      rfl
+    have hpre1 : SPre E (.initRules nt rs none) := ⟨hrows, by intro b hb; cases hb⟩
+    obtain ⟨hs1, hbest⟩ := big_sound E H hr hs0 hpre1
+    have hbd : Der E b.1 nt := hbest b rfl
+    have hs2 : SInv E { s1 with maxNT := AList.insert nt b.1 s1.maxNT } := by
+      refine ⟨hs1.cache_ok, hs1.heap_prio, hs1.heap_seen, hs1.seen_der, hs1.succ_seen, hs1.keys_ok, ?_, hs1.maxRule_ok,
+        hs1.start_ok⟩
+      intro nt' m hl
+      rw [AList.lookup_insert] at hl
+      split at hl
+      · rename_i heq; cases hl; subst heq; exact hbd
+      · exact hs1.maxNT_ok nt' m hl
+    have hs3 := SInv.initPush H nt _ hs2 hp
     have h0 : NInv E { s with initS := s.initS ++ [nt] } :=
       hi.congr (fun _ => rfl) (fun _ => rfl) (fun _ => rfl) rfl
-    obtain ⟨a1, a2, _⟩ := ihr h0 trivial
+    obtain ⟨a1, a2, _⟩ := ihr hs0 hpre1 h0 trivial
     have h2 : NInv E { s1 with maxNT := AList.insert nt b.1 s1.maxNT } :=
       a1.congr (fun _ => rfl) (fun _ => rfl) (fun _ => rfl) rfl
     obtain ⟨b1, b2⟩ := NInv.initPush hk nt _ h2 hp
-    obtain ⟨c1, c2, _⟩ := ihq b1 trivial
+    obtain ⟨c1, c2, _⟩ := ihq hs3 trivial b1 trivial
     have a2' : Stable s s1 := a2
     have b2' : Stable s1 s3 := b2
     exact ⟨c1, (a2'.trans b2').trans c2, trivial⟩
-  | rules_nil => intro hi _; exact ⟨hi, Stable.refl _, trivial⟩
-  | rules_cons ha hb iha ihb =>
-    intro hi _
-    obtain ⟨a1, a2, _⟩ := iha hi trivial
-    obtain ⟨b1, b2, _⟩ := ihb a1 trivial
+  | rules_nil => intro _ _ hi _; exact ⟨hi, Stable.refl _, trivial⟩
+  | @rules_cons s s1 s' nt P alts rest best best1 best' ha hb iha ihb =>
+    intro hs hpre hi _
+    have hP : altsOf E nt P = alts := hpre.1 (P, alts) List.mem_cons_self
+    have hpreA : SPre E (.initAlts nt P alts best) := ⟨by intro vw hvw; rw [hP]; exact hvw, hpre.2⟩
+    obtain ⟨hs1, hb1⟩ := big_sound E H ha hs hpreA
+    obtain ⟨a1, a2, _⟩ := iha hs hpreA hi trivial
+    obtain ⟨b1, b2, _⟩ := ihb hs1 ⟨fun x hx => hpre.1 x (List.mem_cons_of_mem _ hx), hb1⟩ a1 trivial
     exact ⟨b1, a2.trans b2, trivial⟩
-  | alts_nil => intro hi _; exact ⟨hi, Stable.refl _, trivial⟩
+  | alts_nil => intro _ _ hi _; exact ⟨hi, Stable.refl _, trivial⟩
   | @alts_leaf s s1 s3 nt P v w rest best arguments pr ha hc hv iha =>
-    intro hi _
-    obtain ⟨a1, a2, _⟩ := iha hi trivial
+    intro hs _ hi _
+    obtain ⟨a1, a2, _⟩ := iha hs trivial hi trivial
     have hcs := computePrio_step E hc
     have h3 : NInv E s3 := (a1.congr (s' := { s1 with keys := AList.insert (nt, .node P arguments) v s1.keys })
       (fun _ => rfl) (fun _ => rfl) (fun _ => rfl) rfl).cacheStep hcs
@@ -325,21 +360,27 @@ theorem big_nodup (E : Env U π) (hk : E.kway = true) {c : Call U π} {s s' : St
     exact ⟨h3.congr (fun _ => rfl) (fun _ => rfl) (fun _ => rfl) rfl,
       a2.trans (hst.trans (Stable.of_succOf (fun _ => rfl))), trivial⟩
   | @alts_cons s s1 s3 s' nt P v w rest best arguments pr best' ha hc hv hb iha ihb =>
-    intro hi _
-    obtain ⟨a1, a2, _⟩ := iha hi trivial
+    intro hs hpre hi _
+    have hm := hpre.1 _ List.mem_cons_self
+    obtain ⟨hs1, hargs⟩ := big_sound E H ha hs trivial
+    have hl : DerList E arguments v := by simpa using hargs [] trivial
+    obtain ⟨hs2, hd⟩ := hs1.altStep H nt P v w arguments pr hm hl hc
+    obtain ⟨a1, a2, _⟩ := iha hs trivial hi trivial
     have hcs := computePrio_step E hc
     have h3 : NInv E s3 := (a1.congr (s' := { s1 with keys := AList.insert (nt, .node P arguments) v s1.keys })
       (fun _ => rfl) (fun _ => rfl) (fun _ => rfl) rfl).cacheStep hcs
     have hst : Stable s1 s3 := Stable.of_succOf (fun nt' => by rw [hcs.succOf]; rfl)
-    obtain ⟨b1, b2, _⟩ := ihb (h3.congr (fun _ => rfl) (fun _ => rfl) (fun _ => rfl) rfl) trivial
+    obtain ⟨b1, b2, _⟩ := ihb hs2
+      ⟨fun vw hvw => hpre.1 vw (List.mem_cons_of_mem _ hvw), bestUpd_der E nt best _ pr hpre.2 hd⟩
+      (h3.congr (fun _ => rfl) (fun _ => rfl) (fun _ => rfl) rfl) trivial
     have hst2 : Stable s3 { s3 with maxRule := AList.insert (nt, P, v) (.node P arguments) s3.maxRule } :=
       Stable.of_succOf (fun _ => rfl)
     exact ⟨b1, a2.trans (hst.trans (hst2.trans b2)), trivial⟩
-  | args_nil => intro hi _; exact ⟨hi, Stable.refl _, trivial⟩
+  | args_nil => intro _ _ hi _; exact ⟨hi, Stable.refl _, trivial⟩
   | args_cons hi' hm hb ihi ihb =>
-    intro hi _
-    obtain ⟨a1, a2, _⟩ := ihi hi trivial
-    obtain ⟨b1, b2, _⟩ := ihb a1 trivial
+    intro hs _ hi _
+    obtain ⟨a1, a2, _⟩ := ihi hs trivial hi trivial
+    obtain ⟨b1, b2, _⟩ := ihb (big_sound E H hi' hs trivial).1 trivial a1 trivial
     exact ⟨b1, a2.trans b2, trivial⟩
 
 end PS.UHS
